@@ -214,6 +214,23 @@ pub fn dump_tx(tx: &Tx) -> Result<MBucket, String> {
     Ok(out)
 }
 
+/// Reopen an existing database with a different `num_pages` (documented: "Setting num_pages when
+/// opening an existing database has no effect").
+pub fn reopen_db(path: &Path, h: &History, k: u64) -> Result<DB, jammdb::Error> {
+    let np = match k % 4 {
+        0 => h.num_pages,
+        1 => h.num_pages * 4,
+        2 => 1000,
+        _ => 32,
+    };
+    OpenOptions::new()
+        .pagesize(h.pagesize)
+        .num_pages(np.max(4))
+        .strict_mode(h.strict)
+        .mmap_populate(h.populate)
+        .open(path)
+}
+
 pub fn open_db(path: &Path, h: &History) -> Result<DB, jammdb::Error> {
     OpenOptions::new()
         .pagesize(h.pagesize)
@@ -1377,7 +1394,7 @@ fn run_inner(h: &History, run: &mut Run, path: &Path) {
         if script.reopen {
             drop(db);
             run.out.stats.reopens += 1;
-            db = match open_db(path, h) {
+            db = match reopen_db(path, h, run.out.stats.reopens) {
                 Ok(db) => db,
                 Err(e) => {
                     run.viol(Class::Reopen, "reopen:err".into(), format!("reopen failed: {}", e));
@@ -1495,7 +1512,7 @@ fn file_checks(run: &mut Run, db: &DB, path: &Path, committed: &MBucket) {
         run.out
             .stats
             .commit_trace
-            .push((rep.contents.digest(), rep.reachable.len() as u64));
+            .push((rep.contents.digest() ^ rep.contents.next_int.wrapping_mul(0x9E37_79B9_7F4A_7C15), rep.reachable.len() as u64));
     }
     let t = rep.total_shape();
     run.out
